@@ -582,7 +582,7 @@ fn run_steps_inner(backend: &mut dyn Backend, history: &[Step], stats: &mut RunS
                 v.iter().map(|(k, i)| Step::One(*k, *i)).collect()
             };
             let mut twin_delivered: BTreeMap<Key, HashSet<D>> = delivered.clone();
-            run_steps(twin.as_mut(), &singles, stats, &mut twin_delivered, last_fill_race).map_err(|(sig, detail, _)| (sig, format!("full snapshot {v:?}, delivered item by item: {detail}"), idx))?;
+            run_steps(twin.as_mut(), &singles, stats, &mut twin_delivered, last_fill_race).map_err(|(sig, detail, _)| (sig, format!("{} {v:?}, delivered item by item: {detail}", if v.iter().all(|(_, i)| matches!(i, In::ReqOpen | In::ReqCancel)) { "request batch" } else { "full snapshot" }), idx))?;
             let before = backend.observe();
             if let Err(msg) = catch(|| {
                 backend.apply_full_snapshot(v);
@@ -594,7 +594,8 @@ fn run_steps_inner(backend: &mut dyn Backend, history: &[Step], stats: &mut RunS
             let (got, want) = (backend.observe(), twin.observe());
             if got != want {
                 let diff: Vec<_> = got.keys().chain(want.keys()).collect::<std::collections::BTreeSet<_>>().into_iter().filter(|k| got.get(*k) != want.get(*k)).map(|k| format!("{k:?}: snapshot -> {:?}, item by item -> {:?}", got.get(k), want.get(k))).collect();
-                return Err(("account_snapshot_differs_from_item_by_item_delivery", format!("full snapshot {v:?} (state before: {before:?}): {}", diff.join("; ")), idx));
+                let sig = if request_batch { "request_batch_differs_from_request_by_request_recording" } else { "account_snapshot_differs_from_item_by_item_delivery" };
+                return Err((sig, format!("{} {v:?} (state before: {before:?}): {}", if request_batch { "request batch" } else { "full snapshot" }, diff.join("; ")), idx));
             }
             *delivered = twin_delivered;
             if request_batch {
